@@ -1,13 +1,16 @@
 (* Props/C10.v - property theorems only.
    C10: No input crashes, kills or hangs the converter.
    In the model a Go panic, a log.Fatal and an exhausted loop bound are values (Panic, Fatal, OutOfFuel); the
-   theorems say that the modelled core never returns one of them.  PARTIAL: proved for the odometer that builds the
-   rows (all arrays), for the linkage search (all trees, all pairs of leaves), for the Degree-of-Variability count on
-   well-formed trees.  Wall time, memory, stack depth and the parts of the
-   code that are not modelled are measured on the implementation, which the check drives with junk, mutated and
-   extreme inputs through both conversions. *)
-From Coq Require Import List Arith.
-From IGP Require Import Parser.PStr Parser.Combo Parser.NoPanic.
+   theorems say that the modelled core never returns one of them.  PARTIAL: proved for ParseIntoNodeTree as a whole
+   (component combinations and statement combinations) on every properly nesting string - the premise is what the
+   statement-level extraction hands over and cannot be dropped, see detect_panics_below_level_0 -, for the odometer
+   that builds the rows (all arrays) and for the linkage search (all trees, all pairs of leaves).  Not proved:
+   termination of the restart loop (the fuel the port gives detectCombinations suffices on every input the
+   correspondence has run), the statement-level extraction by regular expressions, wall time, memory and stack depth;
+   these are measured on the implementation, which the check drives with junk, mutated and extreme inputs through both
+   conversions. *)
+From Coq Require Import List Arith Strings.String.
+From IGP Require Import Parser.PStr Parser.Combo Parser.NoPanic Parser.ParseNoPanic.
 From IGP Require Import Base.Str Base.Outcome Model.Tree Model.Odo Model.Link Proofs.OdoProof Proofs.LinkProof.
 Import ListNotations.
 
@@ -34,3 +37,29 @@ Print Assumptions C10_detect_parentheses_never_panics_partial.
 Theorem C10_detect_braces_never_panics_partial : forall fuel expr n, nests_brace expr = true -> detect fuel expr lbrace rbrace <> Combo.Panic n.
 Proof. exact detect_brace_never_panics. Qed.
 Print Assumptions C10_detect_braces_never_panics_partial.
+
+(* ParseIntoNodeTree as a whole (detectCombinations, extractSharedComponents, the recursion into both operands of
+   every complete combination, the combination of the level's nodes): on every properly nesting string it returns a
+   tree or an error code, never a panic - the operands cut out by the recorded boundary indices nest properly again
+   (Parser/ParseNoPanic.v), so the recursion stays within the premise.  Both uses: component combinations "( )" and
+   statement combinations "{ }". *)
+Theorem C10_parse_into_node_tree_never_panics : forall fuel input nested n, nests_par input = true ->
+  parse lpar rpar fuel input nested <> Combo.Panic n.
+Proof. exact parse_par_never_panics. Qed.
+Print Assumptions C10_parse_into_node_tree_never_panics.
+
+Theorem C10_parse_statement_combinations_never_panics : forall fuel input nested n, nests_brace input = true ->
+  parse lbrace rbrace fuel input nested <> Combo.Panic n.
+Proof. exact parse_brace_never_panics. Qed.
+Print Assumptions C10_parse_statement_combinations_never_panics.
+
+(* the operands of every complete combination that detectCombinations reports nest properly - for every input *)
+Theorem C10_operand_slices_nest : forall fuel expr lm e', detect fuel expr lpar rpar = Combo.Ok (lm, e') ->
+  forall l b, In b (nth l lm []) -> bComplete b = true -> slices_ok lpar rpar e' b.
+Proof. exact (detect_slices lpar rpar eq_refl op_free_par). Qed.
+Print Assumptions C10_operand_slices_nest.
+
+(* non-vacuity: a nesting string with a repeated operator (one restart) is parsed into a tree *)
+Example C10_example : nests_par (bs "(a [AND] b [AND] (c [OR] d))"%string) = true /\
+  match parse lpar rpar 5 (bs "(a [AND] b [AND] (c [OR] d))"%string) false with Combo.Ok _ => True | _ => False end.
+Proof. vm_compute. split; [reflexivity|exact I]. Qed.
